@@ -11,6 +11,7 @@ package state
 
 //@ func State.PlayForMiner
 //@   property C17
+//@   ensures [C05] failed_play_leaves_no_speculative_memory: result != nil ==> memGen == old(memGen) || memClean == memGen
 //@   local block *xldgpb.InternalBlock
 //@   at Meta.UpdateNextIrreversibleBlockHeight assert irr_args_current: $0 == block.Height && $1 == t.meta.Meta.IrreversibleBlockHeight && $2 == t.meta.Meta.IrreversibleSlideWindow
 //@   at State.updateLatestBlockid assert irr_update_dominates_pointer: sel(irrUpdFor, ifacePtr($1)) == block.Height && bytesEq($0, block.Blockid)
@@ -24,6 +25,7 @@ package state
 
 //@ func State.PlayAndRepost
 //@   property C17
+//@   ensures [C05] failed_play_leaves_no_speculative_memory: result != nil ==> memGen == old(memGen) || memClean == memGen
 //@   local block *xldgpb.InternalBlock
 //@   at Meta.UpdateNextIrreversibleBlockHeight assert irr_args_current: $0 == block.Height && $1 == t.meta.Meta.IrreversibleBlockHeight && $2 == t.meta.Meta.IrreversibleSlideWindow
 //@   at State.updateLatestBlockid assert irr_update_dominates_pointer: sel(irrUpdFor, ifacePtr($1)) == block.Height && bytesEq($0, block.Blockid)
@@ -74,6 +76,7 @@ package state
 //@ macro ukeyOf(a, t, o) = utxo.GenUtxoKeyWithPrefix(a, t, o)
 //@ func State.doTxInternal
 //@   property C02
+//@   ensures [C05] refused_before_memory_is_touched: result != nil ==> memGen == old(memGen)
 //@   local txInput *protos.TxInput
 //@   local txOutput *protos.TxOutput
 //@   at UtxoVM.UpdateUtxoTotal assert total_only_for_coinbase: tx.Coinbase && $2 && sel(bigval, $0) == natOf(txOutput.Amount) && $1 == batch
@@ -368,8 +371,12 @@ package state
 // Admitting a pool transaction: its effects and its pool record go into one batch,
 // written once; the in-memory pool mirror and the utxo cache are only touched after
 // that write succeeded; a write error clears the caches.
+//@ func State.ClearCache
+//@   noverify
+//@   sets memClean = memGen
 //@ func State.doTxSync
 //@   property C06
+//@   ensures [C05] refused_tx_leaves_no_speculative_memory: result != nil ==> memGen == old(memGen) || memClean == memGen
 //@   local batch kvdb.Batch
 //@   local writeErr error
 //@   local doErr error
@@ -393,6 +400,9 @@ package state
 // Rolling back the pool: one batch, written once; the mirror follows the write.
 //@ func State.RollBackUnconfirmedTx
 //@   property C06
+// (A failure of one undo in the middle of the loop is not covered: it needs a read or
+// decoding error, which the property's fault model - refused operations and injected
+// write errors - does not contain; the write-error path is the assertion below.)
 //@   local batch kvdb.Batch
 //@   local writeErr error
 //@   at State.undoUnconfirmedTx assert into_one_batch: $3 == batch
